@@ -25,22 +25,22 @@ class RecWriter:
         pass
 
 
-def new_program(rom="low", syms=None):
+def new_program(rom="low", syms=None, dump_symbols=False):
     from a816.cpu.cpu_65c816 import RomType
     from a816.program import Program
 
-    p = Program()
+    p = Program(dump_symbols=True) if dump_symbols else Program()
     p.resolver.rom_type = {"low": RomType.low_rom, "low2": RomType.low_rom_2, "high": RomType.high_rom}[rom]
     for k, v in (syms or {}).items():
         p.resolver.current_scope.add_symbol(k, v)
     return p
 
 
-def assemble(src, syms=None, rom="low", filename="m.s"):
+def assemble(src, syms=None, rom="low", filename="m.s", dump_symbols=False):
     """Real Program.assemble_string_with_emitter with a recording writer.
 
     Returns ("ok", blocks, program) | ("error", message, program) | ("raise", exception, program)."""
-    p = new_program(rom, syms)
+    p = new_program(rom, syms, dump_symbols)
     w = RecWriter()
     try:
         err = p.assemble_string_with_emitter(src, filename, w)
